@@ -15,7 +15,7 @@ def make_copy(repo="/repo"):
 
 def main():
     args = sys.argv[1:]
-    edits, props = [], []
+    edits, props, dumps = [], [], []
     i = 0
     while i < len(args):
         if args[i] == "--patch":
@@ -24,6 +24,8 @@ def main():
             edits.append(("revert", args[i+1])); i += 2
         elif args[i] == "--subst":
             edits.append(("subst", args[i+1], args[i+2], args[i+3])); i += 4
+        elif args[i] == "--dump":
+            dumps.append(args[i+1]); i += 2
         elif args[i] == "--":
             props = args[i+1:]; break
         else:
@@ -45,6 +47,8 @@ def main():
                     print("SUBST anchor count %d in %s" % (s.count(e[2]), e[1])); return 2
                 open(p, "w").write(s.replace(e[2], e[3]))
         env = dict(os.environ, VERIF_REPO=d)
+        for rx in dumps:
+            subprocess.run(["./check", "dump", rx], cwd=os.path.dirname(os.path.dirname(os.path.abspath(__file__))), env=env)
         for p in props:
             r = subprocess.run(["./check", p], cwd=os.path.dirname(os.path.dirname(os.path.abspath(__file__))), env=env)
             rc = max(rc, r.returncode)
